@@ -117,8 +117,8 @@ def text_of(s):
 EXPECTED_LEXERS = ["lex_regexish", "lex_punctuation", "lex_tabs", "lex_spaces", "lex_newlines", "lex_plural_digit",
                    "lex_hex_number", "lex_long_decade", "lex_number", "lex_url", "lex_email_address",
                    "lex_hostname_token", "lex_word", "lex_catch"]
-EXPECTED_PASSES = ["condense_spaces", "condense_newlines", "newlines_to_breaks", "condense_contractions",
-                   "condense_dotted_initialisms", "condense_number_suffixes", "condense_ellipsis", "condense_latin",
+EXPECTED_PASSES = ["condense_spaces", "condense_newlines", "newlines_to_breaks", "condense_number_suffixes",
+                   "condense_contractions", "condense_dotted_initialisms", "condense_ellipsis", "condense_latin",
                    "match_quotes", "articles_imply_nouns"]
 
 
@@ -212,6 +212,14 @@ def generate(repo):
     w("Definition float_extra_chars : list N := %s." % nlist([char_lit(t) for t in re.findall(CHAR_RE, m.group(1))]))
     if "s.parse::<f64>()" not in b or "s.pop()" not in b:
         raise Shape("lex_number: longest-prefix loop not recognised")
+    # b5c1992: only a FINITE parse is accepted (Lexer.parse_finite)
+    if not re.search(r"if let Some\(n\) = s\.parse::<f64>\(\)\.ok\(\)\.filter\(\|n\| n\.is_finite\(\)\)\s*\{", b):
+        raise Shape("lex_number: the accepted parse is no longer `s.parse::<f64>().ok().filter(|n| n.is_finite())`")
+    # 7202fd4: the look-ahead of lex_plural_digit is char::is_alphanumeric (Lexer.lex_plural_digit takes `u`)
+    b = fn_body(lex_src, "lex_plural_digit")
+    if not re.search(r"if l == i \|\| !src\[i\]\.is_alphanumeric\(\)\s*\{", b) or \
+            not re.search(r"src\.is_empty\(\) \|\| !src\[i\]\.is_ascii_alphanumeric\(\)", b):
+        raise Shape("lex_plural_digit: first-character / look-ahead tests not recognised")
 
     # ---- url.rs classes
     for fname, cname in [("is_reserved", "url_reserved_chars"), ("is_safe", "url_safe_chars"), ("is_extra", "url_extra_chars")]:
